@@ -125,6 +125,16 @@ def check_pair(rec, ta, tb, sub=(False, False)):
     r = _call(lambda: [bool(a < b), bool(a == b), bool(a > b)])
     rec.check(r[0] == "ok" and sum(r[1]) == 1, f"c16:order:trichotomy:{rel}{cls}",
               f"exactly one of a<b, a==b, a>b must hold for {ka}, {kb}; got {r[1]!r}", case, [F_REF + ".__ge__"])
+    if not sub[0] and not sub[1]:
+        # a reference derived from another one that was already hashed (pydantic copy(update=...)) is the same value as a fresh one
+        def derived():
+            src = mkref(tb)
+            hash(src)
+            d = src.copy(update={"group": ta[0], "name": ta[1], "version": tuple(ta[2])})
+            return [bool(d == a), hash(d) == hash(a), d in {a}, a in {d}]
+
+        r = _call(derived)
+        rec.check(r[0] == "ok" and all(r[1]), f"c16:order:derived-ref:{rel}", f"ref {ka} derived by copy(update=...) from the hashed ref {kb} vs a fresh one: [==, hash==, in-set, fresh-in-set-of-derived] = {r[1]!r}", case, [F_REF + ".__hash__", F_REF + ".__eq__"])
     r = _call(lambda: a.supports(b))
     exp = spec_supports(ka, kb)
     rec.check(r[0] == "ok" and r[1] is exp, f"c16:order:supports:{rel}:{_kind(r, exp)}{cls}",
@@ -376,10 +386,10 @@ class _PlainMixin:
     pass
 
 
-def can_subclass(bases):
-    """Try to create a class with the given bases. Returns (created?, exception-or-None)."""
+def can_subclass(bases, body=None):
+    """Try to create a class with the given bases (and class body entries). Returns (created?, exception-or-None)."""
     try:
-        types.new_class("Derived", tuple(bases))
+        types.new_class("Derived", tuple(bases), exec_body=(lambda ns: ns.update(body)) if body else None)
         return True, None
     except Exception as e:  # noqa
         return False, e
@@ -665,7 +675,7 @@ def part_epname(rec, tier, seed, t_end):
 
 # NB: schemas allow only ONE parent schema, so "versioned + plain mixin" is legitimately refused there; the
 # multi-base *positive* shape is exercised on the synthetic group (check_group_get) instead.
-SHAPES = ["marked", "getitem-marked", "plain+marked", "marked+plain", "versioned+marked", "versioned", "sub-of-versioned+marked"]
+SHAPES = ["marked", "getitem-marked", "plain+marked", "marked+plain", "versioned+marked", "versioned", "sub-of-versioned+marked", "marked+own-Plugin", "marked+Plugin-None"]
 
 
 def check_subclass(rec, name, shape):
@@ -701,9 +711,16 @@ def check_subclass(rec, name, shape):
         elif shape == "sub-of-versioned+marked":
             sub = types.new_class("Sub", (B,))
             bases = [sub, A]
+        elif shape in ("marked+own-Plugin", "marked+Plugin-None"):
+            bases = [A]  # the subclass body defines its own Plugin section (a new plugin / next version derived from the marked class)
         else:
             raise ValueError(shape)
-        created, e = can_subclass(bases)
+        body = None
+        if shape == "marked+own-Plugin":
+            body = {"Plugin": type("Plugin", (), {"name": "zz.derived", "version": (0, 1, 0)})}
+        elif shape == "marked+Plugin-None":
+            body = {"Plugin": None}
+        created, e = can_subclass(bases, body)
     if must_fail:
         rec.check((not created) and isinstance(e, TypeError), f"c16:subclass:{shape}:{'created' if created else 'wrong-exception'}",
                   f"class with bases {shape} of {name!r}: created={created}, exc={e!r}; expected TypeError", case, [F_GET, F_META])
